@@ -106,6 +106,9 @@ Proof. exact remove_axes_total. Qed.
 Theorem C17_slice : forall r t y, wf (length r) t -> length y = count_true (map sc_isfree r) ->
   eval (slice_tree r t) y = eval t (embed r y).
 Proof. exact eval_slice_tree. Qed.
+Theorem C17_slice_pipeline : forall r t t' y, wf (length r) t -> length y = count_true (map sc_isfree r) ->
+  remove_axes (length r) (map sc_isfree r) (compose (from_slice r) t) = SOk t' -> eval t' y = eval t (embed r y).
+Proof. exact eval_slice_pipeline. Qed.
 Theorem C17_embed_fixed : forall r y k v, nth k r None = Some v -> nth k (embed r y) 0 = v.
 Proof. exact nth_embed_fixed. Qed.
 (* the finding: as found, remove_axes panicked when the mask keeps no axis (a slice that fixes every coordinate) *)
@@ -216,3 +219,4 @@ Print Assumptions C17_textbook_from_poly.
 Print Assumptions C17_textbook_slice.
 Print Assumptions C17_sixth_f64_nearest.
 Print Assumptions C17_hard_sigmoid_slope_error.
+Print Assumptions C17_slice_pipeline.
